@@ -5,7 +5,7 @@
    exactly like np.max / ndarray.sum() without axis.  Proofs: proofs/Act_proofs.v.
    Float facts (rounding to a few ulp, subnormals, signed zeros) are not provable over R: they are decided by the
    implementation oracle of tools/props/c18.py against a 60-digit reference. *)
-From Coq Require Import Reals List.
+From Coq Require Import Reals List Lra.
 From RV Require Import model.ActPrelude gen.Gen_activations proofs.Act_proofs.
 Import ListNotations.
 Local Open Scope R_scope.
@@ -36,6 +36,11 @@ Theorem C18_softmax_def (x : list R) (beta : R) :
   act_softmax x beta = map (fun t => exp (beta * t) / lsum (map (fun u => exp (beta * u)) x)) x.
 Proof. exact (softmax_textbook x beta). Qed.
 Print Assumptions C18_softmax_def.
+
+(* the default value of beta in the signature `softmax(x, beta=1.0)` *)
+Theorem C18_softmax_default_beta : act_softmax_default_beta = 1.
+Proof. exact softmax_default_beta. Qed.
+Print Assumptions C18_softmax_default_beta.
 
 (* ---------------------------------------------------------------- sigmoid, softplus, tanh, relu, identity *)
 Theorem C18_sigmoid_def (x : R) :
